@@ -77,6 +77,13 @@ CHECKS = {
         "dask's synchronous executor with a replaced priority function is the owned scheduler; dask itself trusted.",
         "DESIGN.md §4 C10",
     ),
+    "C11": (
+        "exploration",
+        "Hypothesis property-based metamorphic and model-based testing over nine stage adapters: permutation equivariance, split/concatenate, generated call histories on one module object compared with fresh objects, byte-level input snapshots and read-only inputs; scripted numpy.random makes the random numbers literal; batches expanded across the 8192-element iterator buffer",
+        "All relations bit for bit on generated batches, permutations, split points and histories for geometry (both modes), spectrum, tau energy/exit probability/module, decay altitude, optical signal incl. the kernel, radio field and SNR. A violation that does not recur on re-execution in the same process is reported as state kept between calls. Evidence, not proof.",
+        "internal draws served by one constant per call (i.i.d.); shower batch evaluated synchronously (schedules are C10).",
+        "DESIGN.md §4 C11",
+    ),
     "C12": (
         "exploration",
         "Hypothesis property-based testing with scripted numpy.random (the uniform numbers themselves are generated, incl. 0, 1 and denormals): exact bounds, closed-form CDF residual in log-energy evaluated with expm1, normalisation product, boundary-heavy spectral indices around 1",
